@@ -126,13 +126,18 @@ func checkResolve(c *fw.Ctx) {
 		case strings.Contains(at, ",IPLITERAL"):
 			got["IP literal target"] = at
 		default:
-			c.Fail(rule, "unrecognised resolution result", c.P.Pos(fw.InstrPos(r)), "returns "+s0+" under "+at)
+			c.Undecided(rule, "unrecognised resolution result", "returns "+s0+" under "+at)
 		}
 	}
 	for _, call := range fw.CallsTo(fn, false, fw.NameIs("gmsl/fclient.LookupWellKnown")) {
 		got["well-known lookup"] = atomsWithErr(call.Block(), resolveAtoms)
 	}
 	for _, k := range fw.SortedKeys(want) {
+		if got[k] == "" || strings.Contains(got[k], "OTHER:") {
+			// the step was not recognised (or runs under a condition the rule does not know)
+			c.Undecided(rule, "step: "+k, fmt.Sprintf("'%s' was not recognised among the returns of resolveServer (conditions: {%s})", k, got[k]))
+			continue
+		}
 		c.Check(got[k] == want[k], rule, "step: "+k, c.P.Pos(fn.Pos()), got[k], fmt.Sprintf("'%s' happens when {%s}; the specification prescribes {%s}", k, got[k], want[k]))
 	}
 	// the recursion disables a second well-known lookup and resolves the delegated name
@@ -180,23 +185,37 @@ func checkSRV(c *fw.Ctx) {
 		for _, call := range fw.CallsTo(fn, false, func(n string) bool { return strings.HasSuffix(n, ".LookupSRV") }) {
 			svc = append(svc, call)
 		}
-		ok := len(svc) == 2
-		if ok {
+		construct := "_matrix-fed._tcp is looked up before _matrix._tcp"
+		switch len(svc) {
+		case 2:
 			s0, _ := fw.ConstString(svc[0].Common().Args[len(svc[0].Common().Args)-3])
 			s1, _ := fw.ConstString(svc[1].Common().Args[len(svc[1].Common().Args)-3])
-			ok = s0 == "matrix-fed" && s1 == "matrix" && reaches(svc[0], svc[1]) && !reaches(svc[1], svc[0])
-			if ok {
-				_, bad := fw.MustPrecede(fn, func(i ssa.Instruction) bool { return i == svc[0].(ssa.Instruction) }, func(i ssa.Instruction) bool { return i == svc[1].(ssa.Instruction) })
-				ok = len(bad) == 0
+			if s0 == "" || s1 == "" {
+				c.Undecided(rule, construct, "the service names are not constants")
+				break
 			}
+			if s0 == "matrix" && s1 == "matrix-fed" {
+				svc[0], svc[1], s0, s1 = svc[1], svc[0], s1, s0
+			}
+			ok := s0 == "matrix-fed" && s1 == "matrix" && reaches(svc[0], svc[1]) && !reaches(svc[1], svc[0])
+			c.Check(ok, rule, construct, c.P.Pos(fn.Pos()), "", "SRV services are not queried in the order matrix-fed, matrix")
 			// the legacy lookup only after a not-found of the new one
 			conds := ""
 			for _, f := range fw.DomConds(svc[1].Block()) {
 				conds += f.String() + " && "
 			}
-			c.Check(strings.Contains(conds, "IsNotFound"), rule, "_matrix is consulted only when _matrix-fed was not found", c.P.Pos(svc[1].Pos()), "", "the legacy SRV lookup runs under ["+conds+"]")
+			c.Expect(strings.Contains(conds, "IsNotFound"), rule, "_matrix is consulted only when _matrix-fed was not found", c.P.Pos(svc[1].Pos()), "", "the legacy SRV lookup runs under ["+conds+"]")
+		case 1:
+			// one call in a loop over a constant list of service names: the list gives the order
+			names, isC := fw.ConstStringsIn(svc[0].Common().Args[len(svc[0].Common().Args)-3], nil)
+			if !isC {
+				c.Undecided(rule, construct, "the service name is not resolved to a constant list")
+				break
+			}
+			c.Check(len(names) == 2 && names[0] == "matrix-fed" && names[1] == "matrix", rule, construct, c.P.Pos(svc[0].Pos()), strings.Join(names, ","), "SRV services are queried in the order "+strings.Join(names, ", "))
+		default:
+			c.Undecided(rule, construct, fmt.Sprintf("%d SRV lookups found", len(svc)))
 		}
-		c.Check(ok, rule, "_matrix-fed._tcp is looked up before _matrix._tcp", c.P.Pos(fn.Pos()), "", "SRV services are not queried in the order matrix-fed, matrix")
 	}
 	if h := mustFunc(c, rule, "fclient.handleNoWellKnown"); h != nil {
 		for _, b := range h.Blocks {
@@ -220,7 +239,7 @@ func checkSRV(c *fw.Ctx) {
 					if strings.Contains(v, "8448") {
 						c.Ok(rule, "fallback destination is name:8448", c.P.Pos(fw.InstrPos(st)), v)
 					} else {
-						c.Check(strings.HasPrefix(v, `fmt.Sprintf("%s:%d"`), rule, "SRV destination is target:port", c.P.Pos(fw.InstrPos(st)), v, "Destination = "+v)
+						c.Expect(strings.HasPrefix(v, `fmt.Sprintf("%s:%d"`) || strings.Contains(v, ".Target") && strings.Contains(v, ".Port"), rule, "SRV destination is target:port", c.P.Pos(fw.InstrPos(st)), v, "Destination = "+v)
 						_ = srv
 					}
 				}
@@ -238,7 +257,23 @@ func checkSRV(c *fw.Ctx) {
 				}
 			}
 		}
-		c.Check(ok8448, rule, "the final fallback is port 8448", c.P.Pos(h.Pos()), "", "no 8448 constant in the fallback")
+		if !ok8448 {
+			// the constant may be a named constant used in a helper: look in the region
+			for _, rf := range fw.RegionOf(h, nil) {
+				for _, b := range rf.Blocks {
+					for _, ins := range b.Instrs {
+						for _, op := range ins.Operands(nil) {
+							if *op != nil {
+								if n, isC := fw.ConstInt(*op); isC && n == 8448 {
+									ok8448 = true
+								}
+							}
+						}
+					}
+				}
+			}
+		}
+		c.Expect(ok8448, rule, "the final fallback is port 8448", c.P.Pos(h.Pos()), "", "no 8448 constant was found in the fallback")
 	}
 }
 
@@ -293,29 +328,31 @@ func checkWellKnown(c *fw.Ctx) {
 	}
 	c.Min(rule+" max-age comparisons", nEq, 1)
 	// max-age overrides Expires: the value stored in CacheExpiresAt is a phi whose later definition is max-age
-	for _, st := range fw.FieldStores(fn, "WellKnownResult", "CacheExpiresAt") {
-		s := fw.Sig(st.Val)
-		i1, i2 := strings.Index(s, "time.Parse("), strings.Index(s, "strconv.ParseInt(")
-		okOrder := i1 >= 0 && i2 >= 0
-		if okOrder {
-			// the max-age assignment must be able to overwrite the Expires value, not vice versa:
-			// the Expires-derived value appears as an inner (earlier) phi operand
-			var exp, age ssa.Instruction
-			for _, b := range fn.Blocks {
-				for _, ins := range b.Instrs {
-					if cl, ok := ins.(ssa.CallInstruction); ok {
-						switch fw.CalleeName(cl) {
-						case "time.Parse":
-							exp = ins
-						case "strconv.ParseInt":
-							age = ins
-						}
-					}
+	// the two parses may live in an unexported helper: look at the function that holds both
+	host := fn
+	for _, rf := range fw.RegionOf(fn, nil) {
+		if len(fw.CallsTo(rf, false, fw.NameIs("time.Parse"))) > 0 && len(fw.CallsTo(rf, false, fw.NameIs("strconv.ParseInt"))) > 0 {
+			host = rf
+		}
+	}
+	var exp, age ssa.Instruction
+	for _, b := range host.Blocks {
+		for _, ins := range b.Instrs {
+			if cl, ok := ins.(ssa.CallInstruction); ok {
+				switch fw.CalleeName(cl) {
+				case "time.Parse":
+					exp = ins
+				case "strconv.ParseInt":
+					age = ins
 				}
 			}
-			okOrder = exp != nil && age != nil && reachesInstr(exp, age) && !reachesInstr(age, exp)
 		}
-		c.Check(okOrder, rule, "max-age is applied after (and therefore overrides) Expires", c.P.Pos(fw.InstrPos(st)), "", "cache lifetime = "+s)
+	}
+	if exp == nil || age == nil {
+		c.Undecided(rule, "max-age is applied after (and therefore overrides) Expires", "the Expires / max-age parses were not found in one function")
+	} else {
+		// the max-age assignment must be able to overwrite the Expires value, not vice versa
+		c.Check(reachesInstr(exp, age) && !reachesInstr(age, exp), rule, "max-age is applied after (and therefore overrides) Expires", c.P.Pos(fw.InstrPos(age)), "", "the Expires header is evaluated after max-age and overrides it")
 	}
 }
 
@@ -380,8 +417,17 @@ func checkConnectors(c *fw.Ctx) {
 				c.Fail(rule, construct, s.pos, "a net.Dialer is constructed outside the two controlled constructors: connections made with it bypass the allow/deny lists")
 			}
 		case "net/http.Transport":
-			okT := s.fn == "getTransport" && s.fields["DialContext"] == "dialer.DialContext" && s.fields["Dial"] == "dialer.Dial"
-			c.Check(okT, rule, construct+" dials through the controlled dialer", s.pos, "", fmt.Sprintf("transport in %s with Dial=%s DialContext=%s", s.fn, s.fields["Dial"], s.fields["DialContext"]))
+			// a transport without DialContext uses the default dialer; one with it must take it from the
+			// controlled dialer (or the DNS cache wrapping it)
+			dc, has := s.fields["DialContext"]
+			switch {
+			case !has:
+				c.Fail(rule, construct+" dials through the controlled dialer", s.pos, fmt.Sprintf("the transport built in %s sets no DialContext: it dials with the default dialer, bypassing the allow/deny lists", s.fn))
+			case strings.HasSuffix(dc, ".DialContext") || strings.Contains(strings.ToLower(dc), "dialcontext"):
+				c.Ok(rule, construct+" dials through the controlled dialer", s.pos, "DialContext="+dc)
+			default:
+				c.Undecided(rule, construct+" dials through the controlled dialer", fmt.Sprintf("transport in %s with Dial=%s DialContext=%s", s.fn, s.fields["Dial"], dc))
+			}
 		case "net/http.Client":
 			if s.fn == "NewClient" {
 				c.Check(s.fields["Transport"] != "", rule, construct+" uses the configured transport", s.pos, s.fields["Transport"], "client without transport")
@@ -390,20 +436,55 @@ func checkConnectors(c *fw.Ctx) {
 			}
 		}
 	}
-	// the plain dialer is returned only when both lists are empty
+	// the plain dialer is returned only when both lists are empty: on the paths that never set
+	// ControlContext, both lists are known to be empty
 	if fn := mustFunc(c, rule, "fclient.newDestinationTripperDialer"); fn != nil {
-		for _, r := range fw.Returns(fn) {
-			hasCtl := false
-			for _, b := range fn.Blocks {
-				for _, ins := range b.Instrs {
-					if st, ok := ins.(*ssa.Store); ok && strings.HasSuffix(fw.Sig(st.Addr), ".ControlContext") && st.Block() == r.Block() {
-						hasCtl = true
-					}
+		blocked := map[*ssa.BasicBlock]bool{}
+		for _, b := range fn.Blocks {
+			for _, ins := range b.Instrs {
+				if st, ok := ins.(*ssa.Store); ok && strings.HasSuffix(fw.Sig(st.Addr), ".ControlContext") {
+					blocked[b] = true
 				}
 			}
-			if !hasCtl {
-				conds := condsOf(r.Block())
-				c.Check(strings.Contains(conds, "(builtin.len(param:allowNetworks) == 0)") && strings.Contains(conds, "(builtin.len(param:denyNetworks) == 0)"), rule, "an uncontrolled dialer is used only when no list is configured", c.P.Pos(fw.InstrPos(r)), conds, "plain dialer under ["+conds+"]")
+		}
+		construct := "an uncontrolled dialer is used only when no list is configured"
+		pcs, okPC := fw.PathCondsAvoiding(fn, blocked)
+		if len(blocked) == 0 || !okPC {
+			c.Undecided(rule, construct, "no store of ControlContext found in newDestinationTripperDialer")
+		} else {
+			for _, r := range fw.Returns(fn) {
+				if blocked[r.Block()] {
+					continue
+				}
+				avoid := pcs[r.Block()]
+				bad, unknown := "", map[string]bool{}
+				enumerate([]tvar{{"allowEmpty", tf}, {"denyEmpty", tf}}, func(a asg) {
+					if a["allowEmpty"] == "true" && a["denyEmpty"] == "true" {
+						return
+					}
+					env := func(atom string) (bool, bool) {
+						for _, side := range []string{"allow", "deny"} {
+							l := "builtin.len(param:" + side + "Networks)"
+							empty := a[side+"Empty"] == "true"
+							switch atom {
+							case "(" + l + " == 0)":
+								return empty, true
+							case "(" + l + " > 0)", "(" + l + " >= 1)", "(0 < " + l + ")":
+								return !empty, true
+							}
+						}
+						return false, false
+					}
+					if evalDNF(avoid, env, unknown) {
+						bad = a.String()
+					}
+				})
+				switch {
+				case len(unknown) > 0:
+					c.Undecided(rule, construct, "conditions not understood: "+strings.Join(sortedSet(unknown), "; "))
+				default:
+					c.Check(bad == "", rule, construct, c.P.Pos(fw.InstrPos(r)), "", "a dialer without the network control can be returned when ["+bad+"]: the configured allow/deny list is not applied")
+				}
 			}
 		}
 	}
@@ -531,21 +612,24 @@ func checkNetworkControl(c *fw.Ctx) {
 func checkTransportUse(c *fw.Ctx) {
 	rule := "6 transport"
 	if fn := mustFunc(c, rule, "fclient.(*destinationTripper).getTransport"); fn != nil {
-		ok := false
-		for _, b := range fn.Blocks {
-			for _, ins := range b.Instrs {
-				if st, isSt := ins.(*ssa.Store); isSt && strings.HasSuffix(fw.Sig(st.Addr), "tls.Config.ServerName") && fw.Sig(st.Val) == "param:tlsServerName" {
-					ok = true
-				}
+		// the TLS name of the transport is the step's TLS name (the literal may be built by a helper)
+		var names []string
+		bad := ""
+		for _, ds := range deepFieldStores(fn, "tls.Config", "ServerName") {
+			names = append(names, fw.SigIn(ds.Fr, ds.St.Val))
+			if !isParamDeep(ds.St.Val, ds.Fr, fn, 1) {
+				bad = fw.SigIn(ds.Fr, ds.St.Val)
 			}
 		}
-		c.Check(ok, rule, "the transport's TLS server name is the resolution step's TLS name", c.P.Pos(fn.Pos()), "", "tls.Config.ServerName is not the tlsServerName parameter")
+		if len(names) == 0 {
+			c.Undecided(rule, "the transport's TLS server name is the resolution step's TLS name", "no store to tls.Config.ServerName found in getTransport or its helpers")
+		} else {
+			c.Check(bad == "", rule, "the transport's TLS server name is the resolution step's TLS name", c.P.Pos(fn.Pos()), strings.Join(names, ","), "tls.Config.ServerName is "+bad+", not the tlsServerName parameter")
+		}
 		// keyed by the same name
-		for _, b := range fn.Blocks {
-			for _, ins := range b.Instrs {
-				if mu, isMu := ins.(*ssa.MapUpdate); isMu {
-					c.Check(fw.Sig(mu.Key) == "param:tlsServerName", rule, "transports are cached per TLS server name", c.P.Pos(fw.InstrPos(mu)), "", "cache key is "+fw.Sig(mu.Key))
-				}
+		for _, di := range fw.DeepInstrs(fn, nil) {
+			if mu, isMu := di.Instr.(*ssa.MapUpdate); isMu && strings.HasSuffix(fw.SigIn(di.Fr, mu.Map), ".transports") {
+				c.Check(isParamDeep(mu.Key, di.Fr, fn, 1), rule, "transports are cached per TLS server name", c.P.Pos(fw.InstrPos(mu)), "", "cache key is "+fw.SigIn(di.Fr, mu.Key))
 			}
 		}
 	}
@@ -568,8 +652,8 @@ func checkTransportUse(c *fw.Ctx) {
 		for _, call := range fw.CallsTo(fn, false, fw.NameIs("gmsl/fclient.makeHTTPSURL")) {
 			okURL = strings.HasSuffix(fw.Sig(call.Common().Args[1]), ".Destination")
 		}
-		c.Check(okHost, rule, "the Host header is the resolution step's Host", c.P.Pos(fn.Pos()), "", "r.Host is not set from the resolution result")
-		c.Check(okURL, rule, "the connection target is the resolution step's destination", c.P.Pos(fn.Pos()), "", "the URL host is not the resolution result's Destination")
+		c.Expect(okHost, rule, "the Host header is the resolution step's Host", c.P.Pos(fn.Pos()), "", "no store of the resolution result's Host into r.Host was recognised")
+		c.Expect(okURL, rule, "the connection target is the resolution step's destination", c.P.Pos(fn.Pos()), "", "the URL host was not recognised as the resolution result's Destination")
 	}
 }
 
